@@ -21,7 +21,8 @@ UNSUPPORTED = {"acq_hedge": "bads.py: 'Acquisition hedge (acquisition portfolio)
                "gp_samples": "docs: only optimisation of hyperparameters is supported", "stobads": "experimental",
                "plot": "opens figures", "restarts": "unused", "fun_values": "pre-evaluated values: separate interface",
                "periodic_vars": "separate interface"}
-FRACTIONS = {"gp_mean_percentile": 100.0, "hpd_frac": 1.0, "improvement_quantile": 1.0, "final_quantile": 1.0, "tol_poi": 1.0, "normalpha_level": 1.0}
+FRACTIONS = {"gp_mean_percentile": 100.0, "hpd_frac": 1.0, "improvement_quantile": 0.9, "final_quantile": 0.9, "tol_poi": 1.0, "normalpha_level": 1.0}
+DEGENERATE_HALF = {"poll_mesh_multiplier"}  # 2.0 / 2 = 1: a mesh that never changes size
 
 
 ASSUMPTIONS = ["option values that the source itself marks as unsupported are not 'valid option combinations' and are not varied: " + ", ".join(sorted(UNSUPPORTED)),
@@ -144,7 +145,7 @@ def option_variation_cases(tier, seed):
         elif isinstance(v, (int, np.integer)) and int(v) >= 2:
             var += [(k, "half", None), (k, "double", None)]
         elif isinstance(v, (float, np.floating)) and np.isfinite(v) and v > 0:
-            var += [(k, "half", None), (k, "double", None)]
+            var += [(k, "half", None), (k, "double", None)] if k not in DEGENERATE_HALF else [(k, "double", None)]
     rs = np.random.RandomState(seed + 97)
     if tier == "quick":
         bools = [t for t in var if t[1] == "flip"]
@@ -160,7 +161,8 @@ def option_variation_cases(tier, seed):
             v = refD[k]
             if how == "flip":
                 val = not bool(v)
-            elif isinstance(v, (int, np.integer)):
+            elif isinstance(v, (int, np.integer)) or float(v) == int(v):
+                # (integral floats such as search_n_try = max(D, floor(3 + D/2)) are counts: they stay integral)
                 val = max(1, int(v) // 2) if how == "half" else int(v) * 2
                 if k in FRACTIONS:
                     val = int(min(val, FRACTIONS[k]))
